@@ -92,6 +92,24 @@ CLAIMS = {
         "technique": "contract-based deductive verification: sweep + pattern obligations over go/ssa (no solver needed)",
         "design_ref": "DESIGN.md §6 C12",
     },
+    "C10": {
+        "level": "Proof of the leaf contracts $ref resolution rests on: extractRefNames (both pointer prefixes, any letter case, file part, error for other fragments, panic-free for every text), getDeclByEqualSchema (a reused declaration is one of the name's candidates AND equal to the schema by the comparison used), cmputil.Opts (the comparison ignores only unexported fields, Ref and AnyOf), determineTypeName (type chosen for a referenced definition).",
+        "note": "Cycle handling, the decl caches and file-system resolution are glue/external and not covered; the loader cache keyed by the raw uri is a recorded finding.",
+        "technique": "contract-based deductive verification: VCs from go/ssa discharged by SMT; table/flow obligations decided on the SSA",
+        "design_ref": "DESIGN.md §6 C10",
+    },
+    "C13": {
+        "level": "Proof that #/$defs/ and #/definitions/ (any letter case) are treated alike by extractRefNames, and that the YAML key-fixing loops are order-free (keyed writes).",
+        "note": "Partial: the JSON/YAML decoders and the legacy-keyword fallbacks of Schema/Type.UnmarshalJSON (encoding/json is external) are not covered; byte-identity of outputs is not decided.",
+        "technique": "contract-based deductive verification: VCs from go/ssa discharged by SMT; table/flow obligations decided on the SSA",
+        "design_ref": "DESIGN.md §6 C13",
+    },
+    "C16": {
+        "level": "Proof on the SSA of main.go that every flag is registered with the documented name, variable, kind and default (plus a sweep: no undeclared flag) and that every generator.Config field is taken from its own flag variable; proof that New builds [json] ++ (ExtraImports ? [yaml] : []), that generateUnmarshaler adds nothing under OnlyModels and exactly the needed imports otherwise, that struct tags depend only on Tags and the property name, and that schema mappings are assembled per id (no state carried across iterations).",
+        "note": "Partial: 'same type declarations as a full run' over the whole generator is glue and not covered.",
+        "technique": "contract-based deductive verification: VCs from go/ssa discharged by SMT; table/flow obligations decided on the SSA",
+        "design_ref": "DESIGN.md §6 C16",
+    },
 }
 
-NOT_APPLICABLE = {p: PENDING for p in ["C08", "C10", "C13", "C16", "C20"]}
+NOT_APPLICABLE = {p: PENDING for p in ["C08", "C20"]}
